@@ -1,3 +1,5 @@
+//go:build race
+
 // c06h: the C06 harness. It is built with -race and with the gojq sources' "sync" import
 // rewritten to verif/mc/syncshim (build overlay), and explores, for each scenario, every
 // schedule of G goroutines up to a preemption bound under a cooperative scheduler whose
@@ -222,6 +224,9 @@ var programs = []string{
 	// updates whose right-hand side yields empty for some paths (a delete list is collected)
 	`.l[] |= select(.a > 1)`, `.b.d |= map_values(select(. > 1))`, `map_values(empty)`, `(.a.r[] | select(. == 1)) |= empty`, `[1,2,3] | .[] |= select(. != 2)`, `.b.d[] |= (if . == 1 then empty else . + 1 end)`,
 	`.l |= map(.b |= ascii_upcase)`, `.a.r[0] += 10`, `.l[].a *= 2`, `.b.c |= sub("a"; "b")`,
+	// accumulating natives whose first operand is empty (the accumulator could adopt a later, shared operand)
+	`[{}, .a, .b] | add`, `[[], .b.d, .a.r] | add`, `[.b.d[:0], .b.d, .a.r] | add`, `[null, .a, .b] | add`, `{} + .a + .b`, `[] + .b.d + .a.r`, `[{}, {"a":1}, {"b":.s}] | add`, `[[], [1,2,3], [.s]] | add`,
+	`.l | map({}) + map(.) | add`, `{} * .a * .b`, `[.a, .b] | add | keys`, `[.l[] | [.a]] | add`, `.b.d[:2] + [.b.d[2] * 10]`, `[.b.d[] | [.]] | add | sort`, `reduce (.a, .b) as $o ({}; . + $o)`,
 	// literals that are nested containers, folded into the code
 	`{"a":{"q":1,"r":[1,2]}} | del(.a.q)`, `[1,[2,3]] | .[1] |= map(.+1)`, `{"a":[3,1,2]} | .a |= sort`, `[[3,1],[2]] | map(sort)`, `{"k":{"v":[1]}} | .k.v[0] = 9`, `[{"a":1}] | map(.a += 1)`,
 	`{"x":[1,2,3]} | del(.x[0])`, `{"x":{"y":1}} | to_entries`, `{"x":{"y":[1]}} | delpaths([["x","y",0]])`, `({"a":[1]} | .a) as $v | $v | .[0] = 2`, `"aab" | test("a")`,
